@@ -18,6 +18,10 @@ import (
 // in a committed ledger (/verif/ledger/<Cnn>.json), keyed by function, kind of site, the expression text and its
 // occurrence among equal texts (no line numbers). The check of the property re-proves the ledger.
 
+// sweepSkip: functions the sweep does not attempt (a table-filling function of several hundred element stores whose
+// store chain exhausts memory when lowered whole).
+var sweepSkip = map[string]bool{"bytecode.initializeDispatch": true}
+
 // sweepMaxNodes: functions with more syntax nodes than this are not attempted by the sweep.
 const sweepMaxNodes = 1500
 
@@ -85,7 +89,7 @@ func (r *Run) sweepFuncs(scope []string) []string {
 				in = true
 			}
 		}
-		if !in || r.Prog.ContractFor(full, src.Pkg.PkgPath) != nil {
+		if !in || r.Prog.ContractFor(full, src.Pkg.PkgPath) != nil || sweepSkip[shortFuncName(full)] {
 			continue
 		}
 		out = append(out, full)
